@@ -195,7 +195,7 @@ def rc_impl(case):
             out += optf(res[1]) if res else [0]
     finally:
         rig.close()
-    if len(_ORACLE_CACHE) > 20000:
+    if len(_ORACLE_CACHE) > 60000:
         _ORACLE_CACHE.clear()
         _IMPL_CACHE.clear()
     _ORACLE_CACHE[_key(case)] = list(rig.oracle)
@@ -299,6 +299,8 @@ class VmSuite(corr.Suite):
         return orig
 
     def run(self, cases, label=""):
+        _ORACLE_CACHE.clear()
+        _IMPL_CACHE.clear()
         orig = self._swap()
         try:
             return super().run(cases, label)
@@ -312,8 +314,49 @@ class VmSuite(corr.Suite):
         finally:
             corr.core.run_model = orig
 
-    def shrink(self, case, pred, max_steps=60):
-        return super().shrink(case, pred, max_steps=max_steps)   # every model evaluation is a coqc run
+    _slow_shrinks = 0
+
+    def shrink(self, case, pred, max_steps=400):
+        """Oracle-driven shrinking is cheap (pure Python) and uses the shared algorithm.  Shrinking a
+        model/implementation disagreement needs a coqc run per evaluation, so candidates are evaluated
+        in batches (one vm_compute file per round) and only the first disagreement of a run is shrunk."""
+        if "disagree" not in pred.__code__.co_names:
+            return super().shrink(case, pred, max_steps=max_steps)
+        VmSuite._slow_shrinks += 1
+        if VmSuite._slow_shrinks > 1:
+            return case
+        ops = list(case["ops"])
+        size = max(1, len(ops) // 2)
+        rounds = 0
+        while size >= 1 and rounds < 10 and len(ops) > 1:
+            rounds += 1
+            cands = []
+            for i in range(0, len(ops), size):
+                c = ops[:i] + ops[i + size:]
+                if c:
+                    cands.append(_rebuild(case, c))
+            bad = batch_disagree(cands)
+            hit = next((c for c, b in zip(cands, bad) if b), None)
+            if hit is not None:
+                ops = hit["ops"]
+                size = min(size, max(1, len(ops) // 2))
+            elif size == 1:
+                break
+            else:
+                size //= 2
+        return _rebuild(case, ops)
+
+
+def batch_disagree(cases):
+    """One vm_compute pass: does the model's digest differ from the implementation's, per case."""
+    exps = []
+    for c in cases:
+        try:
+            exps.append(rc_impl(c))
+        except Exception:
+            exps.append(None)
+    digs = core.run_vm(PREAMBLE, ["digest (%s)" % rc_encode(c)[0] for c in cases])
+    return [e is None or digest(e) != d for e, d in zip(exps, digs)]
 
 
 # ------------------------------------------------------------------------------------ implementation oracle
@@ -468,8 +511,11 @@ def gen_history(rng, cc, nmin=5, nmax=60, style=None):
                     op = ["send", sp, pn, inf, ae, cr, fh(now), rng.choice(SIZES) if style != "steady" else case["mss"]]
                     ever[sp].add(pn)
                     outstanding[sp].add(pn)
-                    rig.apply(op)
                     case["ops"].append(op)
+                    try:
+                        rig.apply(op)
+                    except Exception:      # a raising implementation: keep the history, the oracle reports it
+                        return case
                 continue
             elif r < w[0] + w[1]:
                 if style == "steady" and outstanding[sp]:
@@ -509,8 +555,11 @@ def gen_history(rng, cc, nmin=5, nmax=60, style=None):
                     op = ["nextsend", fh(now)]
                 else:
                     op = ["aftersend", fh(now)]
-            rig.apply(op)
             case["ops"].append(op)
+            try:
+                rig.apply(op)
+            except Exception:
+                return case
             for s in range(N_SPACES):
                 outstanding[s] = set(rig.spaces[s].sent_packets.keys())
     finally:
@@ -623,9 +672,9 @@ def run(ctx):
     rng = ctx.rng
     # generation is cheap and always complete (the PRNG stream does not depend on timing)
     ex = list(exhaustive(3, quick=True)) if not ctx.thorough else list(exhaustive(3)) + list(exhaustive(4))
-    batches = [("random", gen_cases(rng, ctx.n(400, 30000))),
+    batches = [("random", gen_cases(rng, ctx.n(400, 20000))),
                ("exhaustive", ex),
-               ("long", gen_long_ca(rng, ctx.n(40, 3000)))]
+               ("long", gen_long_ca(rng, ctx.n(40, 2000)))]
     # One vm_compute pass over everything (every coqc process pays the library loading once, which takes
     # 5-20 s on a loaded machine); thorough runs are cut into chunks.  Safety net for the quick tier: chunks
     # that would start after the deadline are skipped and counted.
